@@ -14,6 +14,7 @@
 -/
 import EvalFilter.Model.VM
 import EvalFilter.Props.Tables
+import EvalFilter.Proofs.ExprCorrect
 
 namespace EvalFilter.Props.C01
 open EvalFilter EvalFilter.VM
@@ -257,5 +258,34 @@ theorem C01_range_errors (lo hi : Value) (v : Value)
 example : binop M .add (.int 2) (.int 3) = .ok (.int 5, []) := C01_int_add M 2 3
 example : binop M .div (.int 7) (.int 0) = .error (.error "div0") := C01_div_zero_int M 7
 example : Str.contains "hello".toList "ell".toList = true := by decide
+
+/-! ### whole expressions: the compiled code computes the big-step value -/
+
+open EvalFilter.Exec in
+/-- **Compiler + VM correctness for expressions.**  For every expression of the value-producing fragment
+    (literals, identifiers/fields, prefix and binary operators incl. `~=` `in` `..` `.`, index, array
+    literals, the ternary - any size, any nesting), the code the compiler emits for it, placed anywhere
+    in a program that fits the 16-bit operand space, computes exactly `evalE`: operands left to right,
+    then the operator of the laws above; the first error ends the run with that error; on success the
+    value is on top of the stack and the VM continues right behind the code. -/
+theorem C01_expr_correct (e : Expr) (base : Nat) (cst : Compiler.CState) (r : List Instr × Compiler.CState)
+    (hp : pureE e = true) (hc : Compiler.compileExpr e base cst = .ok r) (M : Machine) (obj : HostVal) (code : Bytes)
+    (ctx : Ctx M code) (hat : CodeAt code base r.1) (hpool : ∃ ex, M.consts = r.2.consts ++ ex) :
+    Correct M obj code e base :=
+  expr_ok e base cst r hp hc M obj code ctx hat hpool
+
+open EvalFilter.Exec in
+/-- … and for the script `return <expression>;` as `Prepare(NoOptimize)` compiles it: a run ends with
+    exactly the value - or exactly the error - of the big-step semantics, having written exactly its
+    output, for every host object, environment and host-function table. -/
+theorem C01_return_expr_correct (e : Expr) (hp : pureE e = true) (c : Compiler.Compiled)
+    (hc : Compiler.compileProgram [.ret e] = .ok c) (fns : List (Str × FnImpl)) (obj : HostVal) (env : Env) (out : Str)
+    (polls depth : Nat) :
+    ∃ n k, ∀ fuel,
+      run (Api.newMachine c false fns (fun _ => false)) obj (fuel + n) ⟨env, out, polls, depth⟩ =
+        (match evalE (Api.newMachine c false fns (fun _ => false)) obj env e out with
+         | (.ok v, o) => (.ok v, ⟨env, o, polls + k, depth⟩)
+         | (.error x, o) => (.error x, ⟨env, o, polls + k, depth⟩)) :=
+  return_expr_correct e hp c hc fns obj env out polls depth
 
 end EvalFilter.Props.C01
